@@ -11,7 +11,9 @@ import (
 // output because wrappers embed their own name.
 
 // FilterNames / AggNames are the registered names. Behaviour is (index mod 3).
-var FilterNames = []string{"f1", "f2", "f3", "f4", "f5", "f6"}
+// "fre" is the identity; the library-side closure additionally re-enters the library when a
+// check asks for it (C05: a user function that itself calls a parsed function).
+var FilterNames = []string{"f1", "f2", "f3", "f4", "f5", "f6", "fre"}
 
 // "gid" returns the very slice it was given (an aggregate a user could plausibly write); it
 // makes the ownership of the argument list observable (C05).
@@ -42,6 +44,9 @@ func ApplyFilter(name string, v interface{}) (interface{}, error) {
 	i := nameIndex(FilterNames, name)
 	if i < 0 {
 		return nil, fmt.Errorf("harness bug: unknown filter function %s", name)
+	}
+	if name == "fre" {
+		return v, nil
 	}
 	switch i % 3 {
 	case 0: // wrap
